@@ -928,9 +928,17 @@ func (fi *funcInfo) contractFacts(a string, v ssa.Value, seen map[string]bool) [
 		}
 		out = append(out, atom(a), p.sub(atom(a)))
 		out = append(out, fi.rangeFactsSeen(seen, p)...)
-	case "strings.IndexByte":
+	case "strings.IndexByte", "strings.IndexAny", "strings.IndexRune", "strings.IndexFunc", "strings.LastIndexByte", "strings.LastIndexAny", "strings.LastIndexFunc",
+		"bytes.IndexByte", "bytes.IndexAny", "bytes.IndexRune", "bytes.IndexFunc", "bytes.LastIndexByte", "bytes.LastIndexAny", "bytes.LastIndexFunc":
+		// -1, or the index of a byte of the argument
 		p := fi.lenOf(com.Args[0])
 		out = append(out, atom(a).addK(1), p.sub(atom(a)).addK(-1))
+		out = append(out, fi.rangeFactsSeen(seen, p)...)
+	case "strings.Index", "strings.LastIndex", "bytes.Index", "bytes.LastIndex":
+		// -1, or the start of an occurrence: at most len(s) (the empty string occurs at the end)
+		p := fi.lenOf(com.Args[0])
+		out = append(out, atom(a).addK(1), p.sub(atom(a)))
+		out = append(out, fi.rangeFactsSeen(seen, p)...)
 	default:
 		if sc := com.StaticCallee(); sc != nil && inMod(sc) {
 			for _, mk := range resultFacts(sc, 0) {
